@@ -28,10 +28,10 @@ fn run(args: &hxlib::util::Args) -> i32 {
     let mut rng = hxlib::util::Rng::new(args.seed);
     // Operations that build RoaringBitmap::full() cost seconds each in a debug build (512 MiB): the corpus
     // cases that need one always run; beyond that only this many generated cases may.
-    // (quick: only the two corpus scripts of the "ops" stream; thorough: a few per stream, corpus cases first).
+    // (quick: only the three corpus scripts of the "ops" stream; thorough: a few per stream, corpus cases first).
     let th = args.thorough();
     let mut budget = tm::FullBudget::new(0);
-    budget.left = if th { 6 } else { 2 };
+    budget.left = if th { 7 } else { 3 };
     tm::run_ops(args, &mut sink, &mut rng.fork(), &mut budget);
     budget.left = if th { 4 } else { 0 };
     mask::run(args, &mut sink, &mut rng.fork(), &mut budget);
@@ -50,9 +50,9 @@ fn run(args: &hxlib::util::Args) -> i32 {
     0
 }
 
-/// Ad-hoc reproduction of the one representation-level oddity found while proving the canonical-form
-/// lemmas (not part of the check): `{f: Full} - {f: Partial(all 2^32 offsets)}` keeps an entry for f
-/// holding an empty bitmap, so is_empty() is false for an empty set.  Needs ~1 GiB and some seconds.
+/// Ad-hoc reproduction of the defect repaired by 7f76aa9 (not part of the check): before the repair
+/// `{f: Full} - {f: Partial(all 2^32 offsets)}` kept an entry for f holding an empty bitmap, so is_empty()
+/// was false for an empty set.  Needs ~1 GiB and some seconds.
 fn probe() -> i32 {
     use lance_core::utils::mask::RowIdTreeMap;
     let mut a = RowIdTreeMap::new();
